@@ -32,6 +32,8 @@ type Prog struct {
 	AllPkgs int                     /* Number of packages seen, deps included. */
 	Overlay map[string][]byte       /* In-memory file replacements (self-test mutants). */
 	funcs   []*ssa.Function         /* Source functions of the module, anons included. */
+	Flat    *ssa.FlattenStats       /* What helper inlining did. */
+	Helpers []string                /* Helper functions folded into their callers. */
 }
 
 // LoadOpts tunes loading.
@@ -41,6 +43,7 @@ type LoadOpts struct {
 	Tests     bool
 	Env       []string /* Extra environment, e.g. GOOS=darwin. */
 	AllSyntax bool
+	NoFlatten bool /* Leave helper functions as calls. */
 }
 
 func goEnv(extra []string) []string {
@@ -178,6 +181,9 @@ func Load(o LoadOpts) (*Prog, error) {
 			add(f)
 		}
 	}
+	if !o.NoFlatten {
+		p.flatten()
+	}
 	sort.Slice(p.funcs, func(i, j int) bool {
 		a, b := p.funcs[i], p.funcs[j]
 		if a.String() != b.String() {
@@ -244,4 +250,94 @@ func (p *Prog) FileOf(pos token.Pos) *ast.File {
 		}
 	}
 	return nil
+}
+
+// isHelper: a top-level module function which is not part of the reference
+// structure the rules are written against (reffuncs.go): a helper somebody
+// extracted.  Its calls are folded back into the callers before analysis.
+func isHelper(f *ssa.Function) bool {
+	if nil == f || nil != f.Parent() || nil == f.Blocks || nil == f.Pkg || "" != f.Synthetic {
+		return false
+	}
+	if !strings.HasPrefix(f.Pkg.Pkg.Path(), ModPath) {
+		return false
+	}
+	switch f.Name() {
+	case "main", "init":
+		return false
+	}
+	return !refFuncs[strings.TrimPrefix(f.String(), "")]
+}
+
+// flatten folds helpers into their callers and hides the helpers which are no
+// longer referenced.
+func (p *Prog) flatten() {
+	var tops []*ssa.Function
+	for _, f := range p.funcs {
+		if nil == f.Parent() {
+			tops = append(tops, f)
+		}
+	}
+	any := false
+	for _, f := range tops {
+		if isHelper(f) {
+			any = true
+		}
+	}
+	if !any {
+		p.Flat = &ssa.FlattenStats{}
+		return
+	}
+	p.Flat = ssa.FlattenAll(tops, isHelper)
+	/* Which helpers are still referenced from non-helper code? */
+	still := map[*ssa.Function]bool{}
+	var visit func(f *ssa.Function)
+	visit = func(f *ssa.Function) {
+		for _, b := range f.Blocks {
+			for _, i := range b.Instrs {
+				var ops []*ssa.Value
+				for _, o := range i.Operands(ops) {
+					if g, ok := (*o).(*ssa.Function); ok && isHelper(g) {
+						still[g] = true
+					}
+				}
+			}
+		}
+		for _, a := range f.AnonFuncs {
+			visit(a)
+		}
+	}
+	for changed := true; changed; {
+		changed = false
+		n := len(still)
+		for _, f := range tops {
+			if !isHelper(f) || still[f] {
+				visit(f)
+			}
+		}
+		changed = len(still) != n
+	}
+	/* Rebuild the function list. */
+	var out []*ssa.Function
+	seen := map[*ssa.Function]bool{}
+	var add func(f *ssa.Function)
+	add = func(f *ssa.Function) {
+		if nil == f || seen[f] || nil == f.Blocks {
+			return
+		}
+		seen[f] = true
+		out = append(out, f)
+		for _, a := range f.AnonFuncs {
+			add(a)
+		}
+	}
+	for _, f := range tops {
+		if isHelper(f) && !still[f] {
+			p.Helpers = append(p.Helpers, f.String())
+			continue
+		}
+		add(f)
+	}
+	sort.Strings(p.Helpers)
+	p.funcs = out
 }
